@@ -20,7 +20,7 @@ def sh(*a, **k):
 
 
 # seeds whose property has no check for the damaged construct but another property's rule covers it
-ALSO = {"C12-2": "C10"}
+ALSO = {"C12-2": "C10", "C01-4": "C13", "C27-4": "C28"}
 claimed = {c["property_id"] for c in json.load(open(f"{VERIF}/MANIFEST.json"))["checks"]}
 want = set(sys.argv[1:])
 sh("git", "-C", "/repo", "worktree", "remove", "--force", WT)
